@@ -26,9 +26,9 @@ attribute [pyxs] runV run Block.exec Stmt.exec Handlers.exec Expr.eval Exprs.eva
   xHasAttr attrsOf boolV iterOf forLoop loopStep Target.bind bindAll callVal methodOf strMethod
   xCall xMethod xGetAttr xGetAttrObj xBinop xCmp pyCmp pyBin pySliceTo cmpInt
   catches excOfClass Res.out Out.toModel Res.seq_norm zipKw ofModel isNoneV setLastOf
-  nmInt nmLong nmBool nmNonzero nmUnicode nmSqlmeta nmStrftime nmDecSep sSqlite sUtf8 sAscii
+  nmInt nmFloat nmLong nmBool nmNonzero nmUnicode nmSqlmeta nmStrftime nmDecSep sSqlite sUtf8 sAscii
   intOf strOf boolOf decimalOf notStrContainer Out.toR
-  Cfg.base cfgInt cfgString cfgEnum cfgFkInt cfgFkStr cfgDt cfgDtSub
+  Cfg.base cfgInt cfgString cfgEnum cfgFkInt cfgFkStr cfgDt cfgDtSub cfgDecRead cfgDecStr
   R.bind_ok R.bind_exc R.bind_unmodelled R.bind_stuck ofOpt_some ofOpt_none ofModel_some ofModel_none
   Env.put_apply empty_apply Res.seq_ret Res.seq_exc Res.seq_brk Res.seq_unmodelled Res.seq_stuck
   withR_ok withR_exc withR_unmodelled withR_stuck normOpt_some normOpt_none
